@@ -11,7 +11,8 @@ EXPLANATION = (
     "N*x.n_frac, dot n_int >= x.n_int + y.n_int + clog2(K) + [both signed]; results are stored once through the funnel. Residual: functions not in the registry "
     "(matmul) run on floats through the fallback; NumPy's own reductions are trusted to be exact on int64/object below their capacity (C19)."
     " Added after the third round of seeded changes: R5 __array_ufunc__/__array_function__ hand the caller's arguments and keyword record to the registered function unchanged and the post-processor passes the result object itself on; R6 __array__ exports values unless array_op_method == 'raw'; template sizes (C08.R3b); route selection (C07.R8)."
-    " Added after the fourth round of seeded changes: R7 every wrapper-based function returns the wrapper's result on all non-raising paths (no early stand-in result); C20.R8 objects carry only the documented attributes and no function writes module-level containers (no caches / memos that go stale).")
+    " Added after the fourth round of seeded changes: R7 every wrapper-based function returns the wrapper's result on all non-raising paths (no early stand-in result); C20.R8 objects carry only the documented attributes and no function writes module-level containers (no caches / memos that go stale)."
+    ' Added after the fifth round of seeded changes: R8 what a public function puts into the keyword record (offset, axes, axis ...) is consumed by its raw kernel - this rule found the genuine defect G11 (transpose ignored axes on the raw route), repaired by fix: 63e2726; C20.R8 also forbids mutable default arguments and private attributes hung on operands (x._cache, x.__dict__[...]).')
 ASSUMPTIONS = ["x.size >= the number of elements reduced along any axis; diagonal(...).size is the trace length; x.shape[-1] is dot's contraction length",
                "cumprod: x.n_frac >= 0 and x.n_int >= 0 as in the property's quantifier"]
 TRUSTED = ["CPython ast", "fxlint ordering procedure (sound, incomplete)", "scale typing rules of DESIGN A6"]
